@@ -190,6 +190,67 @@ class Weaver:
         self.records.append(record(it, src[s:e].decode("utf-8"), text, fired))
         return text
 
+    def weave_closures(self, ed, src, fid, spec, closures, within, within_self=None):
+        """R2 (pattern parameters), W3 (closure contracts) and R5 cuts for the closures of a function; `within` restricts the pass to
+        the closures nested inside a byte span (used when a closure body is itself emitted as a function, R5)."""
+        r2 = spec.get("r2_all", True)
+        cl_specs = {c["ordinal"]: c for c in spec.get("closure", [])}
+        for k, c in enumerate(closures):
+            if within is not None and not (within[0] <= c["span"][0] and c["span"][1] <= within[1] and c["span"] != list(within_self)):
+                continue
+            cs = cl_specs.get(k)
+            # R2: pattern parameters
+            pre_lets = []
+            for j, p in enumerate(c["inputs"]):
+                if p["simple"] is None and r2:
+                    fresh = f"kvx_p{k}_{j}"
+                    ptxt = src[p["span"][0]:p["span"][1]].decode("utf-8")
+                    if p["typed"]:
+                        # `(a, b): T` -> `fresh: T` ; pattern part before the last top-level ':'
+                        pat, ty = split_typed_pat(ptxt)
+                        ed.replace(p["span"][0], p["span"][1], f"{fresh}: {ty}", "R2")
+                        pre_lets.append(f"let {pat} = {fresh};")
+                    else:
+                        ed.replace(p["span"][0], p["span"][1], fresh, "R2")
+                        pre_lets.append(f"let {ptxt} = {fresh};")
+            if cs is not None and cs.get("cut"):
+                # R5: the closure text is cut out and replaced by a placeholder; a literal patch of the sidecar then redirects the
+                # call that consumed it (e.g. `iter.for_each(KVX_CLOSURE_0)`) to a stand-in specified through the closure-converted
+                # function proved separately
+                ed.replace(c["span"][0], c["span"][1], f"KVX_CLOSURE_{k}", "R5")
+                continue
+            need_block = bool(pre_lets) or (cs is not None)
+            if cs is not None:
+                ann = []
+                if cs.get("ret"):
+                    if c["has_ret"]:
+                        raise Undecided(f"closure {k} of {spec['path']} already has a return type; W3 cannot name it")
+                    ann.append(f" -> ({cs['ret']})")
+                if cs.get("requires"):
+                    ann.append("\n        requires")
+                    for i, x in enumerate(cs["requires"]):
+                        tag, t = clause_tag(x)
+                        ann.append("\n            " + self.mark(fid, f"closure{k}.requires", i, tag, t) + ",")
+                if cs.get("ensures"):
+                    ann.append("\n        ensures")
+                    for i, x in enumerate(cs["ensures"]):
+                        tag, t = clause_tag(x)
+                        ann.append("\n            " + self.mark(fid, f"closure{k}.ensures", i, tag, t) + ",")
+                ed.insert(c["or2"][1], "".join(ann) + "\n        ", "W3")
+            if need_block:
+                bs, be = c["body"]
+                if c["body_is_block"] and not pre_lets:
+                    pass
+                elif c["body_is_block"]:
+                    # insert lets right after the opening brace
+                    ed.insert(bs + 1, " " + " ".join(pre_lets) + " ", "R2")
+                else:
+                    ed.insert(bs, "{ " + " ".join(pre_lets) + " ", "R2" if pre_lets else "W3")
+                    ed.insert(be, " }", "R2" if pre_lets else "W3")
+        for k in cl_specs:
+            if k >= len(closures):
+                raise Undecided(f"anchor lost: closure {k} of {spec['path']} (function has {len(closures)} closures)")
+
     # ---- functions ---------------------------------------------------------
     def emit_fn(self, spec):
         it = self.ix.find(spec["path"], kind="fn", trait=spec.get("trait"), file_hint=spec.get("file_hint"), nth=spec.get("nth"))
@@ -310,62 +371,7 @@ class Weaver:
             if ls.get("body_end"):
                 ed.insert(lp["body_close"] - 1, "\n            " + ls["body_end"] + "\n        ", "W5")
         # R2 + W3: closures
-        closures = it.get("closures", [])
-        r2 = spec.get("r2_all", True)
-        cl_specs = {c["ordinal"]: c for c in spec.get("closure", [])}
-        for k, c in enumerate(closures):
-            cs = cl_specs.get(k)
-            # R2: pattern parameters
-            pre_lets = []
-            for j, p in enumerate(c["inputs"]):
-                if p["simple"] is None and r2:
-                    fresh = f"kvx_p{k}_{j}"
-                    ptxt = src[p["span"][0]:p["span"][1]].decode("utf-8")
-                    if p["typed"]:
-                        # `(a, b): T` -> `fresh: T` ; pattern part before the last top-level ':'
-                        pat, ty = split_typed_pat(ptxt)
-                        ed.replace(p["span"][0], p["span"][1], f"{fresh}: {ty}", "R2")
-                        pre_lets.append(f"let {pat} = {fresh};")
-                    else:
-                        ed.replace(p["span"][0], p["span"][1], fresh, "R2")
-                        pre_lets.append(f"let {ptxt} = {fresh};")
-            if cs is not None and cs.get("cut"):
-                # R5: the closure text is cut out and replaced by a placeholder; a literal patch of the sidecar then redirects the
-                # call that consumed it (e.g. `iter.for_each(KVX_CLOSURE_0)`) to a stand-in specified through the closure-converted
-                # function proved separately
-                ed.replace(c["span"][0], c["span"][1], f"KVX_CLOSURE_{k}", "R5")
-                continue
-            need_block = bool(pre_lets) or (cs is not None)
-            if cs is not None:
-                ann = []
-                if cs.get("ret"):
-                    if c["has_ret"]:
-                        raise Undecided(f"closure {k} of {spec['path']} already has a return type; W3 cannot name it")
-                    ann.append(f" -> ({cs['ret']})")
-                if cs.get("requires"):
-                    ann.append("\n        requires")
-                    for i, x in enumerate(cs["requires"]):
-                        tag, t = clause_tag(x)
-                        ann.append("\n            " + self.mark(fid, f"closure{k}.requires", i, tag, t) + ",")
-                if cs.get("ensures"):
-                    ann.append("\n        ensures")
-                    for i, x in enumerate(cs["ensures"]):
-                        tag, t = clause_tag(x)
-                        ann.append("\n            " + self.mark(fid, f"closure{k}.ensures", i, tag, t) + ",")
-                ed.insert(c["or2"][1], "".join(ann) + "\n        ", "W3")
-            if need_block:
-                bs, be = c["body"]
-                if c["body_is_block"] and not pre_lets:
-                    pass
-                elif c["body_is_block"]:
-                    # insert lets right after the opening brace
-                    ed.insert(bs + 1, " " + " ".join(pre_lets) + " ", "R2")
-                else:
-                    ed.insert(bs, "{ " + " ".join(pre_lets) + " ", "R2" if pre_lets else "W3")
-                    ed.insert(be, " }", "R2" if pre_lets else "W3")
-        for k in cl_specs:
-            if k >= len(closures):
-                raise Undecided(f"anchor lost: closure {k} of {spec['path']} (function has {len(closures)} closures)")
+        self.weave_closures(ed, src, fid, spec, it.get("closures", []), None)
         text, fired = ed.apply()
         # W4
         pre_attr = ""
@@ -430,8 +436,9 @@ def emit_closure_fn(w, spec):
                 ed.replace(m["span"][0], m["span"][1], "" if m["stmt"] else "()", "D1")
             elif m["name"] in ASSERT_MACROS:
                 ed.replace(m["span"][0], m["span"][1], rewrite_assert(src[m["span"][0]:m["span"][1]].decode("utf-8"), m["name"]), "R1")
-    body, fired = ed.apply()
     fid = spec.get("id", spec["path"] + f"#closure{k}")
+    w.weave_closures(ed, src, fid, spec, cls, (bs, be), tuple(c["span"]))
+    body, fired = ed.apply()
     hdr = []
     if spec.get("requires"):
         hdr.append("    requires")
@@ -443,11 +450,21 @@ def emit_closure_fn(w, spec):
         for i, cl in enumerate(spec["ensures"]):
             tag, t = clause_tag(cl)
             hdr.append("        " + w.mark(fid, "ensures", i, tag, t) + ",")
-    sig = f"pub fn {spec['name']}({', '.join(spec['params'])})" + (f" -> ({spec['ret']})" if spec.get("ret") else "")
+    sig = f"pub fn {spec['name']}{spec.get('generics', '')}({', '.join(spec['params'])})" + (f" -> ({spec['ret']})" if spec.get("ret") else "")
     text = sig + "\n" + "\n".join(hdr) + "\n" + body
     fired.append("R5")
     for p in spec.get("patch", []):
         text = apply_patch(text, p, fired, spec["path"])
+    for h in spec.get("hint", []):
+        anchor = h.get("after") or h.get("before")
+        if text.count(anchor) != 1:
+            raise Undecided(f"W5 hint anchor {anchor!r} occurs {text.count(anchor)} times in closure {k} of {spec['path']}")
+        pos = text.find(anchor) + (len(anchor) if h.get("after") else 0)
+        htext = h["text"]
+        if h.get("tag") == "auxiliary":
+            htext = "\n".join(l + " /*@aux-hint*/" for l in htext.split("\n"))
+        text = text[:pos] + "\n" + htext + "\n" + text[pos:]
+        fired.append("W5")
     orig = src[c["span"][0]:c["span"][1]].decode("utf-8")
     rec = record({"path": spec["path"] + f"#closure{k}", "kind": "closure", "file": it["file"], "span": c["span"], "impl_trait": it.get("impl_trait")}, orig, text, fired)
     w.records.append(rec)
